@@ -46,6 +46,16 @@ var c10Entries = map[string]func(b []byte, p int) interface{}{
 		chunks = append(chunks, pgdump.TOASTChunk{ChunkID: 7, ChunkSeq: 0, Data: b})
 		ptr := pgdump.ParseTOASTPointer(b)
 		out := []interface{}{pgdump.ReassembleTOAST(chunks, 7, ptr)}
+		// every value stored in the relation itself (its chunk data slices alias the input file: reassembly must copy,
+		// not append into them; seeded change C10-2), without a pointer and with pointers claiming each method
+		seen := map[uint32]bool{}
+		for _, c := range chunks {
+			if !seen[c.ChunkID] && len(seen) < 12 {
+				seen[c.ChunkID] = true
+				out = append(out, pgdump.ReassembleTOAST(chunks, c.ChunkID, nil))
+				out = append(out, pgdump.ReassembleTOAST(chunks, c.ChunkID, &pgdump.TOASTPointer{RawSize: uint32(p), ExtSize: uint32(len(c.Data)), ValueID: c.ChunkID, IsCompressed: p%2 == 1, CompressionMethod: p % 3}))
+			}
+		}
 		if ptr != nil {
 			out = append(out, pgdump.ReassembleTOAST(chunks, ptr.ValueID, ptr))
 		}
@@ -269,7 +279,71 @@ func c10Dump(b []byte) *pgdump.DumpResult {
 	return &pgdump.DumpResult{Databases: []pgdump.DatabaseDump{{Name: s, Tables: []pgdump.TableDump{t, t}}}}
 }
 
+// c10Sweep runs an entry point on a family of variants of one input inside ONE case (no model is involved, so this
+// costs microseconds per variant): every prefix (all lengths up to 300, then every 61st), and single-bit flips /
+// boundary byte values over the first 96 bytes and the last 16.  The first variant that panics or leaves the buffer
+// changed is named in the result.
+func c10Sweep(f func(b []byte, p int) interface{}, v []byte, p int, mode string) (res string) {
+	try := func(x []byte, what string) (bad string) {
+		buf := append(make([]byte, 0, len(x)+8), x...)
+		buf = append(buf, 0xEE, 0xEE, 0xEE, 0xEE, 0xEE, 0xEE, 0xEE, 0xEE)
+		snap := append([]byte(nil), buf...)
+		defer func() {
+			if r := recover(); r != nil {
+				bad = "panic-on-" + what
+			}
+		}()
+		f(buf[:len(x):len(x)+8], p)
+		if !bytes.Equal(snap, buf) {
+			return "MUTATED-INPUT-on-" + what
+		}
+		return ""
+	}
+	switch mode {
+	case "prefix":
+		for n := 0; n <= len(v); n++ {
+			if n > 300 && n%61 != 0 && n != len(v) {
+				continue
+			}
+			if bad := try(v[:n], fmt.Sprintf("prefix-%d-of-%d", n, len(v))); bad != "" {
+				return bad
+			}
+		}
+	case "flip":
+		x := append([]byte(nil), v...)
+		for i := range x {
+			if i >= 96 && i < len(x)-16 {
+				continue
+			}
+			for bit := 0; bit < 8; bit++ {
+				x[i] ^= 1 << bit
+				if bad := try(x, fmt.Sprintf("bit-%d-of-byte-%d-flipped", bit, i)); bad != "" {
+					return bad
+				}
+				x[i] ^= 1 << bit
+			}
+			for _, bv := range []byte{0x00, 0x7F, 0x80, 0xFF} {
+				old := x[i]
+				x[i] = bv
+				if bad := try(x, fmt.Sprintf("byte-%d-set-to-%d", i, bv)); bad != "" {
+					return bad
+				}
+				x[i] = old
+			}
+		}
+	}
+	return "ok"
+}
+
 func init() {
+	register("NoPanicSweep", func(a []string) string {
+		f, ok := c10Entries[a[0]]
+		if !ok {
+			return "harness-unknown-entry"
+		}
+		p, _ := strconv.Atoi(a[2])
+		return c10Sweep(f, unhex(a[1]), p, a[3])
+	})
 	register("NoPanic", func(a []string) string {
 		f, ok := c10Entries[a[0]]
 		if !ok {
